@@ -275,6 +275,7 @@ type entryCall struct {
 	Cont   bool     `json:"continue,omitempty"`
 	Abs    bool     `json:"absolute,omitempty"`
 	Refuse []string `json:"refuse,omitempty"` // URLs the loader refuses (isolated runs)
+	Base   string   `json:"base,omitempty"`   // spelling of the root location (default: the world's root URL)
 }
 
 type entryResult struct {
@@ -295,7 +296,11 @@ func runEntry(w *refgraph.World, call entryCall, cache spec.ResolutionCache, loa
 	var res entryResult
 	rootDoc := w.Docs[w.Root]
 	elem, _ := refgraph.Eval(rootDoc, call.Path)
-	opts := &spec.ExpandOptions{RelativeBase: w.Root, PathLoader: loader, SkipSchemas: call.Skip, ContinueOnError: call.Cont, AbsoluteCircularRef: call.Abs}
+	baseLoc := w.Root
+	if call.Base != "" {
+		baseLoc = call.Base
+	}
+	opts := &spec.ExpandOptions{RelativeBase: baseLoc, PathLoader: loader, SkipSchemas: call.Skip, ContinueOnError: call.Cont, AbsoluteCircularRef: call.Abs}
 	before := optsString(opts)
 	var out interface{}
 	var err error
@@ -351,14 +356,14 @@ func runEntry(w *refgraph.World, call entryCall, cache spec.ResolutionCache, loa
 				if err = json.Unmarshal([]byte(elem.Text()), &p); err != nil {
 					return
 				}
-				err = spec.ExpandParameter(&p, w.Root)
+				err = spec.ExpandParameter(&p, baseLoc)
 				out = &p
 			} else {
 				var p spec.Response
 				if err = json.Unmarshal([]byte(elem.Text()), &p); err != nil {
 					return
 				}
-				err = spec.ExpandResponse(&p, w.Root)
+				err = spec.ExpandResponse(&p, baseLoc)
 				out = &p
 			}
 		case "spec":
